@@ -323,7 +323,7 @@ class ConcurrentTaskSet : public TaskSetBase {
           static_cast<ssize_t>(static_cast<float>(pool_.numThreads()) * poolRecursiveLoadFactor);
       if ((detail::PerPoolPerThreadInfo::isPoolRecursive(&pool_) && curWork > quickFactor) ||
           curWork > pool_.poolLoadFactor_.load(std::memory_order_relaxed)) {
-        if (!detail::PerPoolPerThreadInfo::canInlineSchedule()) {
+        if (!detail::PerPoolPerThreadInfo::canInlineSchedule() || canceled()) {
           pool_.schedule(packageTask(std::forward<F>(f)), ForceQueuingTag());
           return;
         }
@@ -463,7 +463,7 @@ class ConcurrentTaskSet : public TaskSetBase {
           static_cast<ssize_t>(static_cast<float>(pool_.numThreads()) * poolRecursiveLoadFactor);
       if ((detail::PerPoolPerThreadInfo::isPoolRecursive(&pool_) && curWork > quickFactor) ||
           curWork > pool_.poolLoadFactor_.load(std::memory_order_relaxed)) {
-        if (!detail::PerPoolPerThreadInfo::canInlineSchedule()) {
+        if (!detail::PerPoolPerThreadInfo::canInlineSchedule() || canceled()) {
           pool_.schedulePlaced(packageTask(std::forward<F>(f)), ForceQueuingTag());
           return;
         }
